@@ -15,12 +15,14 @@
    ptr: 0 NULL, 1 live block, 2 neither (3 = object absent, c07 mode only).  The last two tokens (not in c07 mode) come from
    the READ-ONLY API, evaluated on both objects after every operation:
      acc=ok | acc=BAD:<function>:<got>:<want>:<object><index>
+       (also BAD:a_str_new|a_str_ctor|A_STR_INIT:<ptr!=NULL>,<num>,<mem>:0,0,0:<object>0 when "mk" did not give the empty state)
        a_str_ptr/len/mem against the fields; a_str_at for every index 0..mem+1 (boundary set when mem > 64) and huge indices;
        a_str_at_ for every index < mem (its precondition; only with a block); a_str_of for every index -(num+2)..mem+1 and
-       PTRDIFF_MIN/MAX; a_utf_len with and without `stop` must agree.  Expected values are recomputed here from the fields.
-     q=<A>;<B>;<c>   <X> = <a_str_ptr>,<a_str_len>,<a_str_mem>,<a_str_at_(k%mem)>,<a_str_at(k%(mem+2))>,
-                           <a_str_of(k%(num+mem+3)-(num+1))>,<a_utf_len(x,&stop)>,<stop>,<a_utf_len(x,NULL)>
-                     <c> = sign of a_str_cmp_(a_str_ptr(A), k%(len(A)+1), a_str_ptr(B), a_str_len(B))
+       PTRDIFF_MIN/MAX.  Expected values are recomputed here from the fields.
+     q=<A>;<B>;<c>   with h = (k * 2654435761 + 12345) mod 2^32 (k = operation number, scrambled to reach every index class)
+                     <X> = <a_str_ptr>,<a_str_len>,<a_str_mem>,<a_str_at_(h%mem)>,<a_str_at(h/7%(mem+2))>,
+                           <a_str_of(h/3%(num+mem+3)-(num+1))>,<a_utf_len(x,&stop)>,<stop>,<a_utf_len(x,NULL)>
+                     <c> = sign of a_str_cmp_(a_str_ptr(A), h/5%(len(A)+1), a_str_ptr(B), a_str_len(B))
        pointers are printed as offsets into the object's block: '-' NULL, decimal offset (0..block size), 'W' anything else;
        'x' = not called (a_str_at_ without a block or with mem 0; a_utf_len / a_str_cmp_ when num > mem, out of contract).
        The model (coq/C06/StrAccDefs.v probe_str / probe_cmp) computes the same values.
@@ -207,6 +209,7 @@ static int sign(int x) { return (x > 0) - (x < 0); }
 
 /* ------------------------------------------------------------------ read-only API (tokens acc= and q=) */
 static char accbuf[256];
+static char mkbad[96]; /* a constructor that did not produce {NULL, 0, 0}: reported by the next acc= token */
 
 /* canonical pointer: '-' NULL, offset into the block of s, 'W' */
 static char const *cptr(a_str const *s, char const *p, char *out, size_t cap)
@@ -291,16 +294,18 @@ static void acc_check(a_str const *s, char obj)
     acc_of(s, -((a_diff)1 << 32), obj);
 }
 
+static a_size mix(long k) { return (a_size)(((unsigned long long)k * 2654435761ULL + 12345ULL) & 0xffffffffULL); }
+
 /* one object's part of the q= token */
 static void q_str(a_str const *s, long k)
 {
     char b0[32], b1[32], b2[32], b3[32];
-    a_size const num = s->num_, mem = s->mem_, uk = (a_size)k;
-    a_diff const oi = (a_diff)(uk % (num + mem + 3)) - (a_diff)(num + 1);
-    if (s->ptr_ && mem) { cptr(s, a_str_at_(s, uk % mem), b1, sizeof(b1)); }
+    a_size const num = s->num_, mem = s->mem_, h = mix(k);
+    a_diff const oi = (a_diff)(h / 3 % (num + mem + 3)) - (a_diff)(num + 1);
+    if (s->ptr_ && mem) { cptr(s, a_str_at_(s, h % mem), b1, sizeof(b1)); }
     else { snprintf(b1, sizeof(b1), "x"); }
     printf("%s,%zu,%zu,%s,%s,%s,", cptr(s, a_str_ptr(s), b0, sizeof(b0)), (size_t)a_str_len(s), (size_t)a_str_mem(s), b1,
-           cptr(s, a_str_at(s, uk % (mem + 2)), b2, sizeof(b2)), cptr(s, a_str_of(s, oi), b3, sizeof(b3)));
+           cptr(s, a_str_at(s, h / 7 % (mem + 2)), b2, sizeof(b2)), cptr(s, a_str_of(s, oi), b3, sizeof(b3)));
     if (num <= mem)
     {
         a_size stop = (a_size)-7, n1, n0;
@@ -313,7 +318,8 @@ static void q_str(a_str const *s, long k)
 
 static void print_acc(a_str const *a, a_str const *b, long k)
 {
-    accbuf[0] = 0;
+    snprintf(accbuf, sizeof(accbuf), "%s", mkbad);
+    mkbad[0] = 0;
     acc_check(a, 'A');
     acc_check(b, 'B');
     printf(" acc=%s q=", accbuf[0] ? accbuf : "ok");
@@ -322,7 +328,7 @@ static void print_acc(a_str const *a, a_str const *b, long k)
     q_str(b, k);
     if (a->num_ <= a->mem_ && b->num_ <= b->mem_)
     {
-        printf(";%d", sign(a_str_cmp_(a_str_ptr(a), (a_size)k % (a_str_len(a) + 1), a_str_ptr(b), a_str_len(b))));
+        printf(";%d", sign(a_str_cmp_(a_str_ptr(a), mix(k) / 5 % (a_str_len(a) + 1), a_str_ptr(b), a_str_len(b))));
     }
     else { printf(";x"); }
 }
@@ -351,6 +357,7 @@ static void destroy(int i)
 static void make(int i, char how)
 {
     static a_str const init = A_STR_INIT;
+    char const *fn = how == 'h' ? "a_str_new" : how == 'i' ? "A_STR_INIT" : "a_str_ctor";
     destroy(i);
     if (how == 'h')
     {
@@ -362,12 +369,25 @@ static void make(int i, char how)
             fflush(stdout);
             abort();
         }
-        return;
     }
-    P[i] = &S[i];
-    memset(P[i], POISON, sizeof(a_str));
-    if (how == 'i') { *P[i] = init; }
-    else { a_str_ctor(P[i]); }
+    else
+    {
+        P[i] = &S[i];
+        memset(P[i], POISON, sizeof(a_str));
+        if (how == 'i') { *P[i] = init; }
+        else { a_str_ctor(P[i]); }
+    }
+    if (P[i]->ptr_ || P[i]->num_ || P[i]->mem_)
+    {
+        if (!mkbad[0])
+        {
+            snprintf(mkbad, sizeof(mkbad), "BAD:%s:%d,%zu,%zu:0,0,0:%c0", fn, P[i]->ptr_ != NULL, (size_t)P[i]->num_,
+                     (size_t)P[i]->mem_, 'A' + i);
+        }
+        P[i]->ptr_ = NULL; /* continue the case from the constructed state */
+        P[i]->num_ = 0;
+        P[i]->mem_ = 0;
+    }
 }
 
 #define MAXTOK 8
@@ -442,6 +462,13 @@ int main(int argc, char **argv)
             for (i = 0; i < nled; ++i) { printf("%c%zu", i ? ',' : ':', led[i].n); }
             printf("\n");
             fflush(stdout);
+            if (!c07)
+            {
+                /* a leak has been reported; it must not change the cases that follow */
+                for (i = 0; i < nled; ++i) { free(led[i].p); }
+                nled = 0;
+                mkbad[0] = 0;
+            }
             continue;
         }
         {
